@@ -846,8 +846,9 @@ impl ZooVal for std::time::SystemTime {
     }
     fn gen(r: &mut Rng, _sz: usize) -> Self {
         use std::time::*;
-        let secs = match r.below(6) {
+        let secs = match r.below(7) {
             0 => 0,
+            5 => return UNIX_EPOCH,
             1 => (i64::MAX as u64) - 1,
             2 => 1_700_000_000,
             3 => 1u64 << 34, // above u64::MAX nanoseconds
